@@ -104,6 +104,7 @@ package car
 //@   ensures untouched_on_error [C06]: err != nil ==> h.DataOffset == old(h.DataOffset) && h.DataSize == old(h.DataSize) && h.IndexOffset == old(h.IndexOffset)
 
 //@ func NewBlockReader
+//@   ensures every_call_builds_a_new_reader [C02,C14]: err == nil ==> freshobj(result0)
 //@   let h1, h1err := call[carv1.ReadHeader#1]
 //@   ensures v1_fields [C14]: err == nil && result0.Version == 1 ==> result0.Roots == hdr.Roots && result0.readerSize == -1
 //@   ensures v2_fields [C14]: err == nil && result0.Version == 2 ==> result0.Roots == h1.Roots && h1.Version == 1 && result0.readerSize == wrap_s64(wrap_u64(cur(v2h).DataOffset + cur(v2h).DataSize)) && result0.v1offset == cur(v2h).DataOffset
@@ -494,6 +495,7 @@ package car
 //@   ensures no_options_means_defaults [C04,C05,C09]: len(opt) == 0 ==> result.MaxAllowedHeaderSize == 33554432 && result.MaxAllowedSectionSize == 8388608 && result.IndexCodec == 1025 && result.MaxIndexCidSize == 2048 && result.DataPadding == 0 && result.IndexPadding == 0 && !result.StoreIdentityCIDs && !result.BlockstoreUseWholeCIDs && !result.BlockstoreAllowDuplicatePuts && !result.WriteAsCarV1 && !result.ZeroLengthSectionAsEOF && !result.TrustedCAR
 
 //@ func NewReader
+//@   ensures every_call_builds_a_new_reader [C07,C13]: err == nil ==> freshobj(result0)
 //@   let aopts := call[ApplyOptions#0]
 //@   call[ApplyOptions#0] assert the_callers_options [C09,C13]: arg0 == opts
 //@   ensures options_are_kept [C09,C13]: err == nil ==> result0.opts.MaxAllowedHeaderSize == aopts.MaxAllowedHeaderSize && result0.opts.MaxAllowedSectionSize == aopts.MaxAllowedSectionSize && result0.opts.ZeroLengthSectionAsEOF == aopts.ZeroLengthSectionAsEOF
@@ -576,3 +578,9 @@ package car
 //@   trusted
 //@   note the traversal engine (go-ipld-prime) is a dependency: it reaches tracked state only through the link system it is given
 //@   ensures root_load_error_is_reported [C15]: true
+
+//@ func MaxTraversalLinks
+//@   closure[0]
+//@     ensures sets_its_field [C15]: sco.MaxTraversalLinks == MaxTraversalLinks
+//@     ensures touches_nothing_else [C15]: sco.IndexCodec == old(sco.IndexCodec) && sco.DataPadding == old(sco.DataPadding) && sco.IndexPadding == old(sco.IndexPadding) && sco.BlockstoreAllowDuplicatePuts == old(sco.BlockstoreAllowDuplicatePuts) && sco.WriteAsCarV1 == old(sco.WriteAsCarV1) && sco.StoreIdentityCIDs == old(sco.StoreIdentityCIDs)
+//@   end
